@@ -140,6 +140,30 @@ def _run_one(reg: Registry, I: Interp, c: Contract, fref: FuncRef, rep: Function
             ofr = reg.contract_frame(I, fref.module, c.short, old_env, old_env)
             v = reg.eval_clause(I, cond, ofr)
             reg.prove_clause(I, f"must-raise:{exc}", ops.b_not(v), "raises", ofr)
+        # torch semantics: tensor divisions never raise; where a property needs every evaluated
+        # denominator to be non-zero (finite values and gradients) it is asked for here, for an
+        # arbitrary element of the named result tensors
+        for src in c.extra.get("denominators", []):
+            t = I.eval(parse_expr(src), pfr)
+            idx = []
+            for d, size in enumerate(t.shape):
+                k = ctx.fresh(f"e{d}", "int")
+                ctx.assume(z3.And(k >= 0, k < (size if not isinstance(size, int) else z3.IntVal(size))))
+                I.saw_index(k)
+                idx.append(k)
+            ctx.ghost["tensor_denominators"] = []
+            t.fn(*idx)
+            seen = set()
+            n = 0
+            for guard, den in ctx.ghost["tensor_denominators"]:
+                key = str(guard) + "|" + str(den)
+                if key in seen or not hasattr(den, "sort"):
+                    continue
+                seen.add(key)
+                ctx.prove(f"denominator-nonzero[{src}]#{n}", ops.b_implies(guard, den != 0), "safety")
+                n += 1
+            if n == 0:
+                ctx.prove(f"denominator-nonzero[{src}]#none", True, "safety")
     else:
         exc = outcome.exc
         rep.outcomes["raise"][exc] = rep.outcomes["raise"].get(exc, 0) + 1
